@@ -292,7 +292,10 @@ func (s *Service) refreshSyncCommitteeDutiesForEpochPeriod(ctx context.Context, 
 	firstEpoch := s.firstEpochOfSyncPeriod(period)
 	// If we are in the sync committee that starts at slot x we need to generate a message during slot x-1
 	// for it to be included in slot x, hence -1.
-	firstSlot := s.chainTimeService.FirstSlotOfEpoch(firstEpoch) - 1
+	firstSlot := s.chainTimeService.FirstSlotOfEpoch(firstEpoch)
+	if firstSlot > 0 {
+		firstSlot--
+	}
 	lastEpoch := s.firstEpochOfSyncPeriod(period+1) - 1
 	// If we are in the sync committee that ends at slot x we do not generate a message during slot x-1
 	// as it will never be included, hence -1.
